@@ -11,15 +11,15 @@ import ast
 from ..astutil import parents_map
 from ..cfg import CFG, node_defs, node_uses
 from ..dataflow import forward, atom_of, add_fact, kill_facts, atom_vars, eq_lhs
-from ..model import Func, func_locals, norm
+from ..model import Func, func_locals, norm, walk_own
 from ..report import RuleResult
 
 # frozen exceptions: function -> variable -> reason  (one symbol each)
 EXCEPTIONS = {
-    ("core._grouped_combine", "results"):
+    "core._grouped_combine":
         "if/elif over agg.reduction_type in {'reduce','argreduce'}: _get_chunk_reduction raises ValueError for any other value "
         "before a graph is built (checked structurally below)",
-    ("core.reindex_", "reindexed"):
+    "core.reindex_":
         "if/elif over the ReindexArrayType enum after AUTO has been rewritten to NUMPY: all members covered (checked structurally below)",
 }
 
@@ -106,22 +106,62 @@ def _correlated(cfg: CFG, f: Func, var: str, use_node, locals_, pm) -> tuple[boo
     return all(assigned for assigned, _ in st), atoms
 
 
-def _exception_holds(ctx, key) -> bool:
+def _assigned_in_all_arms(chain: ast.If) -> set[str]:
+    """names assigned (at top level) in every arm of an if/elif chain without a final else"""
+    arms = []
+    cur = chain
+    while True:
+        arms.append(cur.body)
+        if len(cur.orelse) == 1 and isinstance(cur.orelse[0], ast.If):
+            cur = cur.orelse[0]
+        else:
+            if cur.orelse:
+                arms.append(cur.orelse)
+            break
+    sets = []
+    for arm in arms:
+        names = set()
+        for st in arm:
+            for n in ast.walk(st):
+                if isinstance(n, ast.Name) and isinstance(n.ctx, ast.Store):
+                    names.add(n.id)
+        sets.append(names)
+    return set.intersection(*sets) if sets else set()
+
+
+def _exception_vars(ctx, fn: str) -> set[str]:
+    """variables covered by the frozen exception of a function, discovered structurally (empty = exception void)"""
     prog = ctx.prog
-    if key == ("core._grouped_combine", "results"):
+    f = prog.funcs.get(fn)
+    if f is None:
+        return set()
+    if fn == "core._grouped_combine":
         g = prog.funcs.get("core._get_chunk_reduction")
         if g is None:
-            return False
+            return set()
         txt = norm(g.node)
-        return "raise ValueError" in txt and "'reduce'" in txt and "'argreduce'" in txt
-    if key == ("core.reindex_", "reindexed"):
-        f = prog.func("core.reindex_")
+        if not ("raise ValueError" in txt and "'reduce'" in txt and "'argreduce'" in txt):
+            return set()
+        out = set()
+        for n in walk_own(f.node):
+            if isinstance(n, ast.If) and "reduction_type == 'argreduce'" in norm(n.test) and n.orelse \
+                    and isinstance(n.orelse[0], ast.If) and "reduction_type == 'reduce'" in norm(n.orelse[0].test):
+                out |= _assigned_in_all_arms(n)
+        return out
+    if fn == "core.reindex_":
         txt = norm(f.node)
         enum = prog.unit("core").classes.get("ReindexArrayType")
         members = [t.id for st in enum.body if isinstance(st, ast.Assign) for t in st.targets if isinstance(t, ast.Name)] if enum else []
-        handled = {m for m in members if f"array_type is ReindexArrayType.{m}" in txt}
-        return bool(members) and handled == set(members) and "array_type = ReindexArrayType.NUMPY" in txt
-    return False
+        out = set()
+        for n in walk_own(f.node):
+            if isinstance(n, ast.If) and "is ReindexArrayType." in norm(n.test) and n.orelse and isinstance(n.orelse[0], ast.If):
+                handled = {m for m in members if f"is ReindexArrayType.{m}" in norm(n)}
+                var = norm(n.test).split(" is ")[0]
+                rewritten = f"{var} = ReindexArrayType.NUMPY" in txt and f"{var} is ReindexArrayType.AUTO" in txt
+                if members and (handled | ({"AUTO"} if rewritten else set())) == set(members):
+                    out |= _assigned_in_all_arms(n)
+        return out
+    return set()
 
 
 def rule_defassign(ctx) -> RuleResult:
@@ -145,8 +185,8 @@ def rule_defassign(ctx) -> RuleResult:
             if ok:
                 res.inst(f"{f.qualname}: {var!r} at L{use.lineno} discharged by guard correlation on {sorted(atoms)[:4]}", key)
                 continue
-            ex = EXCEPTIONS.get((f.qualname, var))
-            if ex and _exception_holds(ctx, (f.qualname, var)):
+            ex = EXCEPTIONS.get(f.qualname)
+            if ex and var in _exception_vars(ctx, f.qualname):
                 res.inst(f"{f.qualname}: {var!r} at L{use.lineno} frozen exception: {ex}", key)
                 res.notes.append(f"exception {f.qualname}:{var}: {ex}")
                 continue
